@@ -248,7 +248,9 @@ func CoerceNumber(v Value) float64 {
 // ("1000000", not "1e+06").
 func formatFloat(f float64, bitSize int) string {
 	if f == math.Trunc(f) && math.Abs(f) < 1e21 {
-		return strconv.FormatFloat(f, 'f', -1, bitSize)
+		// All digits of the integer: the shortest float32 representation
+		// ("123456790" for 123456792) would name another number.
+		return strconv.FormatFloat(f, 'f', -1, 64)
 	}
 	return strconv.FormatFloat(f, 'g', -1, bitSize)
 }
